@@ -10,8 +10,8 @@ RULE = ("one case = (method (uniform or adaptive grid), direction, dense flag, w
         "bit-equal sol(t), otherwise a nearest recorded sample, whole-run time slices in either direction; non-trivial = >=5 recorded rows; distinct by "
         "(method, direction, dense, continuation, seed)")
 ASSUMPTIONS = ["nearest: |t_ret - q| <= min_k |t_k - q| * (1 + 64 eps) + 4 ulp (ties may go either way)"]
-FLOORS = {"quick": {"systems": 60, "index_lookups": 1500, "time_lookups_nodense": 2000, "time_lookups_dense": 800, "backward_systems": 20, "slices": 100, "iterations": 60},
-          "thorough": {"systems": 600, "index_lookups": 15000, "time_lookups_nodense": 20000, "time_lookups_dense": 8000, "backward_systems": 200, "slices": 1000, "iterations": 600}}
+FLOORS = {"quick": {"systems": 60, "index_lookups": 1500, "time_lookups_nodense": 2000, "time_lookups_dense": 800, "backward_systems": 20, "slices": 100, "iterations": 60, "early_sequence_checks": 120, "array_lookups": 15},
+          "thorough": {"systems": 600, "index_lookups": 15000, "time_lookups_nodense": 20000, "time_lookups_dense": 8000, "backward_systems": 200, "slices": 1000, "iterations": 600, "early_sequence_checks": 1200, "array_lookups": 150}}
 METHODS = ["RK4Solver", "RK45CKSolver", "DOPRI45", "EulerSolver", "RK8713MSolver", "ABAs5o6HSolver", "RadauIIA5", "HeunEulerSolver"]
 
 
@@ -34,15 +34,52 @@ def run_case(spec):
     L = float(rng.uniform(1.0, 4.0))
     tf = t0 + d * L
     system = sysrun.make_system(prob.rhs, prob.ystar(t0).astype(np.float64), t0, tf, L / spec["nsteps"], info["cls"], dense=spec["dense"], rtol=1e-5, atol=1e-7)
+    early = []     # observations taken on the freshly constructed system and from inside a step callback (storage not yet trimmed)
+
+    def seq_check(sysm, where):
+        n_ = len(sysm)
+        tt, yy = np.array(sysm.t, copy=True), np.array(sysm.y, copy=True)
+        rows_ = [(tt[k], yy[k]) for k in range(n_)]
+        for i in (0, n_ - 1, n_, n_ + 1, -1, -n_, -n_ - 1):
+            try:
+                want, werr = rows_[i], None
+            except IndexError:
+                want, werr = None, IndexError
+            try:
+                got, gerr = sysm[i], None
+            except IndexError:
+                got, gerr = None, IndexError
+            except Exception as e:
+                got, gerr = None, type(e)
+            if werr is not gerr:
+                early.append(("index_semantics", "index_error_behaviour_differs_from_sequence", dict(where=where, index=i, n=n_, want="IndexError" if werr else "row", got=(gerr.__name__ if gerr else "row"))))
+            elif want is not None and not (float(got.t) == float(want[0]) and np.array_equal(np.asarray(got.y), want[1])):
+                early.append(("index_semantics", "index_returns_wrong_row", dict(where=where, index=i, n=n_)))
+        try:
+            it_ = list(iter(sysm))
+            if len(it_) != n_:
+                early.append(("iteration", "iteration_does_not_yield_each_row_once_in_order", dict(where=where, got=len(it_), want=n_)))
+        except Exception as e:
+            early.append(("iteration", "iteration_raised", dict(where=where, err=repr(e)[:100])))
+    seq_check(system, "fresh_system")
+    cb_state = {"n": 0}
+
+    def cb(s_):
+        cb_state["n"] += 1
+        if cb_state["n"] in (1, 3):
+            seq_check(s_, "inside_callback")
     if spec["cont"]:
-        system.integrate(t0 + 0.45 * (tf - t0))
-    system.integrate()
+        system.integrate(t0 + 0.45 * (tf - t0), callback=cb)
+    system.integrate(callback=cb)
     rec = util.Rec(sig="%s|%d|%s|%s|%d" % (spec["method"], d, spec["dense"], spec["cont"], spec["pseed"] % 211))
     feats = {"method": spec["method"], "direction": d, "dense": spec["dense"], "continued": spec["cont"], "grid": "adaptive" if info["adaptive"] else "uniform"}
     t = np.array(system.t, copy=True)
     y = np.array(system.y, copy=True)
     n = len(t)
     rec.bump("systems")
+    rec.bump("early_sequence_checks", 1 + min(cb_state["n"], 2))
+    for (c_, m_, d_) in early[:4]:
+        rec.violate(c_, m_, dict(feats, where=d_.pop("where")), **d_)
     if d < 0:
         rec.bump("backward_systems")
     rec.nontrivial = n >= 5
@@ -107,6 +144,19 @@ def run_case(spec):
                 if nbad == 1:
                     rec.violate("time_lookup_nearest", "returned_sample_is_not_the_nearest_in_time", dict(feats, where="inside" if lo <= q <= hi else "outside"),
                                 q=q, returned_t=float(got.t), nearest_distance=dmin, returned_distance=dg)
+    # ---- array-valued time look-ups (dense output): element-wise equal to the scalar look-ups
+    if spec["dense"]:
+        qa = np.concatenate([rng.uniform(lo, hi, 12), t[:3].astype(float), t[-3:].astype(float), 0.5 * (t[:-1] + t[1:])[:3], 0.5 * (t[:-1] + t[1:])[-3:]])
+        try:
+            ga = system[qa]
+            stack = np.stack([np.asarray(system[float(q)].y) for q in qa])
+            rec.bump("time_lookups_dense", len(qa))
+            rec.bump("array_lookups")
+            if np.asarray(ga.y).shape != stack.shape or not np.array_equal(np.asarray(ga.y), stack):
+                rec.violate("time_lookup_dense", "array_valued_lookup_differs_from_scalar_lookups", feats,
+                            maxdiff=float(np.max(np.abs(np.asarray(ga.y) - stack))) if np.asarray(ga.y).shape == stack.shape else None)
+        except Exception as e:
+            rec.violate("time_lookup_raised", type(e).__name__, dict(feats, array=True), err=repr(e)[:200])
     # ---- whole-run slices (either direction) and partial slices
     for (a, b, name) in ((float(t[0]), float(t[-1]), "whole"), (None, None, "open"), (float(t[0]), None, "from_start"), (None, float(t[-1]), "to_end")):
         rec.bump("slices")
